@@ -27,7 +27,13 @@
 //     (v_k = c*median_k, sum p_k v_k = parent mean) and containment of v_k/c, not of v_k, in the class interval;
 //   * the masses are only compared where every quantile argument lies in [1e-5, 1-1e-5] (working range of the quantile
 //     functions, C08) and the domain carries at least 1e-3 of the parent's mass; other states are only exercised
-//     (label "irregular").
+//     (label "irregular"); the laws do not lead there: a history ends before an operation that would (label "stopped_...");
+//   * a compound's own interval structure (InvariantMixed) is only checked while the nested classes are mean-valued: scaled
+//     medians may leave their intervals and the compound's bounds are built from those values;
+//   * the cdf of a mixture is compared where every component's cdf is defined (intersection of the components' domains).
+// Not generated: restrictions of compounds that contain a TruncatedExponential (its truncation point parameter is copied
+// into the compound with the unrestricted constraint), coinciding values in a Simple distribution (separated artificially),
+// class-count changes of Simple / Constant (their count is their number of values).
 #include "common/c09_ref.hpp"
 #include "common/pbt.hpp"
 #include "common/bppcommon.hpp"
@@ -246,7 +252,8 @@ Obs checkStructure(const DDI& d, size_t wantK, double slack, double sumTol, bool
   try { d.getBound(K - 1); } catch (IndexOutOfBoundsException&) { raised = true; }
   CHECK(raised, where << ": getBound(" << K - 1 << ") past the last interior bound did not raise IndexOutOfBoundsException");
   if (valuesInsideIntervals)
-    for (size_t k = 0; k < K; ++k) CHECK(o.v[k] >= o.b[k] - slack && o.v[k] <= o.b[k + 1] + slack, where << ": value " << vf::dec(o.v[k]) << " of class " << k << " lies outside its interval [" << vf::dec(o.b[k]) << ";" << vf::dec(o.b[k + 1]) << "]; values " << showVec(o.v) << " bounds " << showVec(o.b));
+    // (the separation of coinciding values ends at the next representable numbers when the precision is below an ulp: Beta)
+    for (size_t k = 0; k < K; ++k) CHECK(o.v[k] >= o.b[k] - slack - (K + 1) * 4 * EPS * std::abs(o.v[k]) && o.v[k] <= o.b[k + 1] + slack + (K + 1) * 4 * EPS * std::abs(o.v[k]), where << ": value " << vf::dec(o.v[k]) << " of class " << k << " lies outside its interval [" << vf::dec(o.b[k]) << ";" << vf::dec(o.b[k + 1]) << "]; values " << showVec(o.v) << " bounds " << showVec(o.b));
   // cumulative class queries against the partial sums of the class probabilities
   LD below = 0;
   for (size_t k = 0; k < K; ++k) {
